@@ -65,6 +65,7 @@ use super::*;
 //@include prelude/history_spec.rs
 //@include prelude/history_nf.rs
 //@include prelude/history_l2.rs
+//@include prelude/history_scan.rs
 } // mod pre
 use pre::*;
 
